@@ -108,8 +108,33 @@ func (w *plainLevelW) SetLevel(l slog.Level)       { sink.note(w.id, "s", int(l)
 
 var writerPool = map[int]io.Writer{}
 
+// writer ids from fileWriterBase on are real *os.File destinations (what an application's log file
+// or a pipe is): one end of a SOCK_SEQPACKET socket pair, so that every write(2) is seen as one event
+const fileWriterBase = 41
+
+var fileSocks = map[int]int{} // writer id -> reading end
+var fileIds []int
+
+func newFileWriter(id int) *os.File {
+	fds, err := syscall.Socketpair(syscall.AF_UNIX, syscall.SOCK_SEQPACKET, 0)
+	if err != nil {
+		panic(err)
+	}
+	_ = syscall.SetsockoptInt(fds[0], syscall.SOL_SOCKET, syscall.SO_SNDBUF, 8<<20)
+	_ = syscall.SetsockoptInt(fds[1], syscall.SOL_SOCKET, syscall.SO_RCVBUF, 8<<20)
+	if err := syscall.SetNonblock(fds[1], true); err != nil {
+		panic(err)
+	}
+	fileSocks[id] = fds[1]
+	fileIds = append(fileIds, id)
+	return os.NewFile(uintptr(fds[0]), fmt.Sprintf("logfile-%d", id))
+}
+
 // writer id -> kind: 1 plain, 2 LogWriter, 3 LevelSettable LogWriter, 4 plain+LevelSettable, then repeating
 func writerKind(id int) string {
+	if id >= fileWriterBase {
+		return "file"
+	}
 	switch (id - 1) % 4 {
 	case 0:
 		return "plain"
@@ -135,6 +160,8 @@ func getWriter(id int) io.Writer {
 		w = &closerW{id}
 	} else {
 		switch writerKind(id) {
+		case "file":
+			w = newFileWriter(id)
 		case "plain":
 			w = &plainW{id}
 		case "lw":
@@ -179,6 +206,7 @@ type stdioCapture struct {
 	buf []byte
 }
 
+var fileBuf []byte
 var stdio *stdioCapture
 var diag = os.Stderr
 
@@ -232,6 +260,18 @@ func (c *stdioCapture) drain(i int) [][]byte {
 // stdout (-1) / stderr (-2) since the last call (order across the two kinds is not preserved).
 func takeAll() []wev {
 	evs := sink.take()
+	for _, id := range fileIds {
+		if fileBuf == nil {
+			fileBuf = make([]byte, 1<<20)
+		}
+		for {
+			n, err := syscall.Read(fileSocks[id], fileBuf)
+			if err != nil || n <= 0 {
+				break
+			}
+			evs = append(evs, wev{W: id, K: "w", payload: append([]byte(nil), fileBuf[:n]...)})
+		}
+	}
 	if stdio == nil {
 		return evs
 	}
